@@ -229,9 +229,11 @@ func structuredCases(thorough bool, emit func(c scaseS)) {
 	}
 
 	// ---- 7. Function constructor: parameter list x body
-	params := []string{"", "a", "a,b", "a,", ",", "a b", "a=1", "...a", "(", ")", "a){", "/*", "//", "arguments", "this", "a,a", "a\n", "eval", "😀", "a/**/,b"}
+	params := []string{"", "a", "a,b", "a,", ",", "a b", "a=1", "...a", "(", ")", "a){", "/*", "//", "arguments", "this", "a,a", "a\n", "eval", "😀", "a/**/,b",
+		"a){}), (function(", "){}), (function(", "a){ return 1 }) + (function(", "a) {}; function g(", "a,/*", "a = function(){}"}
 	bodies := []string{"", "return a", "}", "{", "})(", "return", "//", "/*", "}; (function(){", "return arguments", "return this", "a &^= 1", "var arguments", "\n", "'", "\\",
-		"return arguments.callee", "function a(){}; return a", "return eval('a')", "debugger", "with(a){}", "return /(/", "label: break label", "return a ? : b"}
+		"return arguments.callee", "function a(){}; return a", "return eval('a')", "debugger", "with(a){}", "return /(/", "label: break label", "return a ? : b",
+		"}), (function(){", "}) + (function(){", "*/ return 1", "}; function h(){", "}))(0), ((function(){"}
 	for pi, p := range params {
 		for bi, b := range bodies {
 			emit(scaseS{Key: group("function", pi, bi), Copy: true,
@@ -308,6 +310,33 @@ func structuredCases(thorough bool, emit func(c scaseS)) {
 				src := strings.ReplaceAll(strings.ReplaceAll(form, "F", "("+f+")"), "X", "("+a.Src+")")
 				emit(scaseS{Key: group("apply", fi, ai, oi), Src: "String(" + src + ")", Bridged: a.Bridged})
 			}
+		}
+	}
+
+	// ---- 13. strings held as []uint16 in every operator / conversion position
+	operands := []string{`String.fromCharCode(49, 50)`, `String.fromCharCode(0xD800)`, `String.fromCharCode()`, `String.fromCharCode(0x20, 49)`, `String.fromCharCode(120)`,
+		`"12"`, `1`, `null`, `undefined`, `true`, `({})`, `[1]`, `new String(String.fromCharCode(49))`}
+	binops := []string{"+", "-", "*", "/", "%", "<", ">", "<=", ">=", "==", "!=", "===", "!==", "&", "|", "^", "<<", ">>", ">>>", "&&", "||", ",", "in", "instanceof"}
+	for ai, a := range operands {
+		for bi, b := range operands {
+			if ai > 4 && bi > 4 {
+				continue // at least one []uint16 operand
+			}
+			for oi, op := range binops {
+				emit(scaseS{Key: group("u16-binary", ai, bi, oi), Src: fmt.Sprintf("(function(){ var a = %s, b = %s; return a %s b })()", a, b, op)})
+			}
+		}
+	}
+	unary := []string{`+a`, `-a`, `!a`, `~a`, `typeof a`, `void a`, `a++`, `--a`, `a += 1`, `a *= 2`, `a |= 0`, `delete a`, `Number(a)`, `parseInt(a)`, `parseFloat(a)`, `isNaN(a)`, `isFinite(a)`,
+		`Math.abs(a)`, `Math.max(a, 1)`, `new Date(a).getTime()`, `Date.parse(a)`, `Array(a).length`, `new Number(a) + 0`, `Boolean(a)`, `Object(a).length`, `JSON.parse(a)`, `JSON.stringify(a)`,
+		`eval(a)`, `new RegExp(a).test(a)`, `encodeURIComponent(a)`, `escape(a)`, `a.length`, `a[0]`, `a.charCodeAt(0)`, `({})[a]`, `(function(){ var o = {}; o[a] = 1; return Object.keys(o).length })()`,
+		`[3, 2, 1][a]`, `"abc".charAt(a)`, `"abc".substring(a)`, `[1, 2, 3].slice(a).length`, `(1).toFixed(a)`, `(255).toString(a)`, `a.toUpperCase()`, `a.localeCompare(a)`, `a.split(a).length`,
+		`a.concat(a).length`, `a.indexOf(a)`, `a.replace(a, a)`, `a.trim().length`, `[a, a].sort().join().length`, `[a].indexOf(a)`, `(function(){ switch (a) { case "12": return 1; default: return 2 } })()`,
+		`(function(){ for (var k in a) return k })()`, `new Function(a)`, `Function("a", "return " + a)`, `a ? 1 : 2`, `Object.keys(a)`, `new Array(a, a).join(a)`, `String(a) === a`, `new Error(a).message === a`,
+		`Object.defineProperty({}, a, {value: 1})`, `Object.prototype.hasOwnProperty.call({}, a)`, `a in {}`, `setTimeout`, `[].concat(a).length`, `Array.prototype.join.call({length: 2, 0: a, 1: a}, a).length`}
+	for ai, a := range operands[:5] {
+		for ui, u := range unary {
+			emit(scaseS{Key: group("u16-unary", ai, ui), Src: fmt.Sprintf("(function(){ var a = %s; return %s })()", a, u)})
 		}
 	}
 
